@@ -20,28 +20,28 @@ Print Assumptions C32_region_inside.
 (* SOUNDNESS (all bitmaps, viewports, seeds, attributes, any fuel): every cell PAINT changes lies in the
    region of the seed and is changed to the fill attribute *)
 Theorem C32_sound : forall fuel v m sx sy fill border m',
-  covers m v -> flood_fill fuel v m sx sy (solid_pat fill) border = Ok m' ->
+  covers m v -> flood_fill fuel v m sx sy fill border = Ok m' ->
   forall x y, pix m' x y <> pix m x y -> region m v border sx sy x y /\ pix m' x y = fill.
 Proof. exact flood_sound. Qed.
 Print Assumptions C32_sound.
 
 (* seed outside the viewport or on a border cell: nothing happens *)
 Theorem C32_noop_cases : forall fuel v m sx sy fill border,
-  in_view v sx sy = false \/ pix m sx sy = border -> flood_fill fuel v m sx sy (solid_pat fill) border = Ok m.
+  in_view v sx sy = false \/ pix m sx sy = border -> flood_fill fuel v m sx sy fill border = Ok m.
 Proof. exact flood_noop. Qed.
 Print Assumptions C32_noop_cases.
 
 (* TERMINATION: the work-list loop ends within (width+2)*(height+2)*2 iterations (paint_fuel); the result is
    never OutOfFuel *)
 Theorem C32_terminates : forall v m sx sy fill border,
-  covers m v -> exists m', flood_fill (paint_fuel v) v m sx sy (solid_pat fill) border = Ok m'.
+  covers m v -> exists m', flood_fill (paint_fuel v) v m sx sy fill border = Ok m'.
 Proof. exact flood_terminates. Qed.
 Print Assumptions C32_terminates.
 
 (* COMPLETENESS (full statement, all region shapes): when no cell of the region has the fill attribute
    beforehand, every cell of the region is filled *)
 Theorem C32_complete : forall fuel v m sx sy fill border m',
-  covers m v -> flood_fill fuel v m sx sy (solid_pat fill) border = Ok m' ->
+  covers m v -> flood_fill fuel v m sx sy fill border = Ok m' ->
   (forall x y, region m v border sx sy x y -> pix m x y <> fill) ->
   forall x y, region m v border sx sy x y -> pix m' x y = fill.
 Proof. exact flood_complete. Qed.
@@ -74,13 +74,13 @@ Print Assumptions C32_paint.
 (* SOUNDNESS for every pattern: every changed cell lies in the region and gets the tile's attribute for its
    position *)
 Theorem C32_tile_sound : forall fuel v m sx sy p border m',
-  covers m v -> flood_fill fuel v m sx sy p border = Ok m' ->
+  covers m v -> flood_fill_pat fuel v m sx sy p border = Ok m' ->
   forall x y, pix m' x y <> pix m x y -> region m v border sx sy x y /\ pix m' x y = tile_at p x y.
 Proof. exact flood_sound_pat. Qed.
 Print Assumptions C32_tile_sound.
 
 Theorem C32_tile_noop_cases : forall fuel v m sx sy p border,
-  in_view v sx sy = false \/ pix m sx sy = border -> flood_fill fuel v m sx sy p border = Ok m.
+  in_view v sx sy = false \/ pix m sx sy = border -> flood_fill_pat fuel v m sx sy p border = Ok m.
 Proof. exact flood_noop_pat. Qed.
 Print Assumptions C32_tile_noop_cases.
 
@@ -109,12 +109,12 @@ Print Assumptions C32_tile_plain_class.
 (* TERMINATION and COMPLETENESS for that class (PARTIAL: the full statements below are false in general) *)
 Theorem C32_tile_terminates_partial : forall fuel v m sx sy p border,
   stops_on_tile p -> covers m v -> (paint_fuel v <= fuel)%nat ->
-  exists m', flood_fill fuel v m sx sy p border = Ok m'.
+  exists m', flood_fill_pat fuel v m sx sy p border = Ok m'.
 Proof. exact flood_terminates_pat. Qed.
 Print Assumptions C32_tile_terminates_partial.
 
 Theorem C32_tile_complete_partial : forall fuel v m sx sy p border m',
-  stops_on_tile p -> covers m v -> flood_fill fuel v m sx sy p border = Ok m' ->
+  stops_on_tile p -> covers m v -> flood_fill_pat fuel v m sx sy p border = Ok m' ->
   (forall x y, region m v border sx sy x y -> pix m x y <> tile_at p x y) ->
   forall x y, region m v border sx sy x y -> pix m' x y = tile_at p x y.
 Proof. exact flood_complete_pat. Qed.
@@ -122,7 +122,7 @@ Print Assumptions C32_tile_complete_partial.
 
 (* the full termination statement for all tiles ... *)
 Definition C32_tile_terminates_statement : Prop := forall v m sx sy p border,
-  covers m v -> exists fuel m', flood_fill fuel v m sx sy p border = Ok m'.
+  covers m v -> exists fuel m', flood_fill_pat fuel v m sx sy p border = Ok m'.
 (* ... is refuted: a 3x3 ring around a border pixel painted with an all-zero tile never ends
    (pcbasic hangs on PAINT (0,0),CHR$(0),1 for this picture: known finding K32a) *)
 Theorem C32_tile_terminates_refuted : ~ C32_tile_terminates_statement.
